@@ -94,6 +94,7 @@ type c01Finalize struct {
 	by   string
 }
 type c01Send struct{}
+type c01Restart struct{}
 type c01Role struct {
 	b    uint64
 	role int // 0 proposer 1 challenger
@@ -168,6 +169,7 @@ func (y *c01Sys) Letters(s *c01State) []engine.Letter {
 	}
 	ls = append(ls, engine.Letter{Name: "Advance(10s)", Data: c01Advance{}})
 	ls = append(ls, engine.Letter{Name: "BankSend(stranger->escrow1,1uxx)", Data: c01Send{}})
+	ls = append(ls, engine.Letter{Name: "RestartViaGenesis", Data: c01Restart{}})
 	return ls
 }
 
@@ -214,6 +216,13 @@ func (y *c01Sys) Step(s *c01State, l engine.Letter) (*c01State, string, *engine.
 	switch d := l.Data.(type) {
 	case c01Advance:
 		c.ctx = world.Advance(ctx, c01Period)
+		return c, "ok", nil
+	case c01Restart:
+		// (a restart materialises default counters, so the raw per-bridge slices are not compared here;
+		// whatever it loses or mixes up between bridges shows in the steps that follow)
+		if err := s.w.RestartViaGenesis(ctx); err != nil {
+			return c, "error", viol("bridge-records-survive-a-restart", "export / validate / import of the module genesis failed: %v", err)
+		}
 		return c, "ok", nil
 	case c01Create:
 		res = s.w.Deliver(ctx, ophosttypes.NewMsgCreateBridge(world.Addr("creator").String(), world.BridgeConfig("proposer", "challenger", c01Period)))
